@@ -1315,6 +1315,154 @@ fn loopback_cases(rep: &mut Report, r: &mut Rng, n: usize) {
     }
 }
 
+// ------------------------------------------------------------------------------------------------ settings -> paths
+/// Config::from_lsp_config (harper-ls/src/config.rs + resolve-path) run IN PROCESS under a chosen $HOME / XDG dirs /
+/// working directory, against the extracted EffectsConfig.parse_render: case `G <home> <cwd> <cfgdir> <datadir> <u> <f> <s>`
+/// (setting = A absent | X not a string | S<hex>), implementation line = the three paths Config holds (lexically
+/// normalised, hex) or `E`.  Only called while no other thread of this process runs (it sets environment variables).
+fn config_cases(rep: &mut Report, r: &mut Rng, n: usize, only: Option<&Value>) {
+    use std::os::unix::ffi::OsStrExt;
+    let root = format!("/tmp/w-c10-{}-cfg", std::process::id());
+    let _ = std::fs::remove_dir_all(&root);
+    let envs: Vec<(String, String, Option<String>, Option<String>)> = vec![
+        (format!("{root}/home/u"), format!("{root}/work/proj"), None, None),
+        (format!("{root}/home/ü ser"), format!("{root}/work/deep/er/proj"), Some(format!("{root}/xdg/cfg")), Some(format!("{root}/xdg/data"))),
+        (format!("{root}/h"), format!("{root}/h"), None, Some(format!("{root}/xdg2/data"))),
+    ];
+    let fixed = [
+        "", "~", "~/", "~//", "~/x/d.txt", "~//x//d.txt", "~/x/../d.txt", "~/..", "~user/d.txt", "~x", "./~/fd", "rel/d.txt", "./rel/",
+        "../up/d.txt", "..", "a/..", "a/b/..", ".", "./", "/", "//", "/abs/d.txt", "/abs//./d.txt/", "/abs/../d.txt", "/..", "x/../../y",
+        "wörter/dé.txt", " ", "~ /x", "a/~/b", "dicts/", "日本/s.txt", "~/.config/harper-ls/dictionary.txt",
+    ];
+    let segs = ["a", "b.txt", "..", ".", "", "~", "dö", "x y", "fd", "~u"];
+    let gen_path = |r: &mut Rng| -> String {
+        if r.chance(2, 3) {
+            return r.pick(&fixed[..]).to_string();
+        }
+        let mut p = match r.below(4) {
+            0 => "/".to_string(),
+            1 => "~/".to_string(),
+            2 => "./".to_string(),
+            _ => String::new(),
+        };
+        for i in 0..r.range(0, 5) {
+            if i > 0 {
+                p.push('/');
+            }
+            let sg: &str = *r.pick(&segs[..]);
+            p.push_str(sg);
+        }
+        p
+    };
+    let gen_val = |r: &mut Rng| -> Option<Value> {
+        match r.below(10) {
+            0 | 1 => None,
+            2 => Some(r.pick(&[json!(null), json!(7), json!(true), json!(["a"]), json!({"p": "x"})]).clone()),
+            3 => Some(json!("")),
+            _ => Some(json!(gen_path(r))),
+        }
+    };
+    let enc = |v: &Option<Value>| match v {
+        None => "A".to_string(),
+        Some(Value::String(s)) => format!("S{}", hex(s.as_bytes())),
+        Some(_) => "X".to_string(),
+    };
+    let saved_cwd = std::env::current_dir().ok();
+    let saved: Vec<(&str, Option<std::ffi::OsString>)> = ["HOME", "XDG_CONFIG_HOME", "XDG_DATA_HOME"].iter().map(|k| (*k, std::env::var_os(k))).collect();
+    let mut cases: Vec<(usize, Option<Value>, Option<Value>, Option<Value>)> = vec![];
+    if let Some(v) = only {
+        let g = |k: &str| if v[k].is_null() && v.get(k).is_none() { None } else { Some(v[k].clone()) };
+        cases.push((v["env"].as_u64().unwrap_or(0) as usize % envs.len(), g("userDictPath"), g("fileDictPath"), g("statsPath")));
+    } else {
+        // every fixed string in every position once, then random triples
+        for (i, f) in fixed.iter().enumerate() {
+            cases.push((i % envs.len(), Some(json!(f)), None, None));
+            cases.push(((i + 1) % envs.len(), None, Some(json!(f)), None));
+            cases.push(((i + 2) % envs.len(), None, None, Some(json!(f))));
+        }
+        cases.push((0, Some(json!("")), Some(json!("")), Some(json!(""))));
+        for _ in 0..n {
+            let e = r.below(envs.len());
+            cases.push((e, gen_val(r), gen_val(r), gen_val(r)));
+        }
+    }
+    for (ei, u, f, st) in cases {
+        let (home, cwd, xc, xd) = &envs[ei];
+        std::fs::create_dir_all(home).unwrap();
+        std::fs::create_dir_all(cwd).unwrap();
+        std::env::set_var("HOME", home);
+        match xc {
+            Some(x) => std::env::set_var("XDG_CONFIG_HOME", x),
+            None => std::env::remove_var("XDG_CONFIG_HOME"),
+        }
+        match xd {
+            Some(x) => std::env::set_var("XDG_DATA_HOME", x),
+            None => std::env::remove_var("XDG_DATA_HOME"),
+        }
+        std::env::set_current_dir(cwd).unwrap();
+        // the dirs crate's rule on Linux, written down independently: $XDG_* when absolute, else under $HOME
+        let cfgdir = xc.clone().unwrap_or_else(|| format!("{home}/.config"));
+        let datadir = xd.clone().unwrap_or_else(|| format!("{home}/.local/share"));
+        let mut inner = serde_json::Map::new();
+        for (k, v) in [("userDictPath", &u), ("fileDictPath", &f), ("statsPath", &st)] {
+            if let Some(v) = v {
+                inner.insert(k.to_string(), v.clone());
+            }
+        }
+        let settings = json!({ "harper-ls": Value::Object(inner) });
+        rep.eval();
+        let got = guarded(|| lsx::config::Config::from_lsp_config(settings.clone()));
+        let norm = |p: &std::path::PathBuf| normalize(b"/", p.as_os_str().as_bytes());
+        let impl_line = match &got {
+            Ok(Ok(c)) => format!("{} {} {}", hex(&norm(&c.user_dict_path)), hex(&norm(&c.file_dict_path)), hex(&norm(&c.stats_path))),
+            Ok(Err(_)) => "E".to_string(),
+            Err(_) => "P".to_string(),
+        };
+        let case = format!("G {} {} {} {} {} {} {}", hex(home.as_bytes()), hex(cwd.as_bytes()), hex(cfgdir.as_bytes()), hex(datadir.as_bytes()), enc(&u), enc(&f), enc(&st));
+        rep.nontrivial(&case);
+        rep.count(&format!("config:{}", if impl_line == "E" { "error" } else { "parsed" }));
+        for (k, v) in [("user", &u), ("filedict", &f), ("stats", &st)] {
+            rep.count(&format!(
+                "config:{k}:{}",
+                match v {
+                    None => "absent",
+                    Some(Value::String(s)) if s.is_empty() => "empty",
+                    Some(Value::String(s)) if s.starts_with('/') => "absolute",
+                    Some(Value::String(s)) if s.starts_with('~') => "tilde",
+                    Some(Value::String(_)) => "relative",
+                    Some(_) => "not-a-string",
+                }
+            ));
+        }
+        let input = json!({"kind": "config", "env": ei, "userDictPath": u, "fileDictPath": f, "statsPath": st});
+        // property oracle on the implementation (independent of the model): an absent or EMPTY dictionary setting
+        // means the default location under the config / data directory, never the working directory
+        if let Ok(Ok(c)) = &got {
+            let unset = |v: &Option<Value>| matches!(v, None) || matches!(v, Some(Value::String(s)) if s.is_empty());
+            if unset(&u) && norm(&c.user_dict_path) != normalize(b"/", format!("{cfgdir}/harper-ls/dictionary.txt").as_bytes()) {
+                rep.fail("config-unset-not-default", format!("userDictPath {:?} makes the user dictionary {}", u, show(&norm(&c.user_dict_path))), input.clone());
+            }
+            if unset(&f) && norm(&c.file_dict_path) != normalize(b"/", format!("{datadir}/harper-ls/file_dictionaries").as_bytes()) {
+                rep.fail("config-unset-not-default", format!("fileDictPath {:?} makes the file-dictionary directory {}", f, show(&norm(&c.file_dict_path))), input.clone());
+            }
+        }
+        if matches!(got, Err(_)) {
+            rep.fail("config-panic", format!("Config::from_lsp_config panicked at {}", last_panic_location()), input.clone());
+        }
+        rep.case(&case, &impl_line);
+    }
+    for (k, v) in saved {
+        match v {
+            Some(x) => std::env::set_var(k, x),
+            None => std::env::remove_var(k),
+        }
+    }
+    if let Some(c) = saved_cwd {
+        let _ = std::env::set_current_dir(c);
+    }
+    let _ = std::fs::remove_dir_all(&root);
+}
+
 // ------------------------------------------------------------------------------------------------ thorough: the real binary
 fn frame(v: &Value) -> Vec<u8> {
     let body = serde_json::to_vec(v).unwrap();
@@ -1407,24 +1555,186 @@ fn editor_session(w: &mut dyn Write, rx: &std::sync::mpsc::Receiver<Value>, sett
     ok
 }
 
-fn real_binary(rep: &mut Report, _args: &Args) {
-    let target = std::env::var("C10_LS_TARGET").unwrap_or_else(|_| "/verif/.work/c10-ls-target".to_string());
+/// where the real harper-ls is built: `.work/c10-ls-target` (setup.sh pre-builds it). Inside tools/mutcheck.sh's
+/// private namespace `.work` starts empty: the build cache is then seeded by COPYING the read-only seed setup.sh left
+/// outside /verif (never built in place: another tree's objects must not be mistaken for this one's), after which
+/// cargo rebuilds exactly the crates whose sources differ.
+fn ls_target() -> String {
+    std::env::var("C10_LS_TARGET").unwrap_or_else(|_| "/verif/.work/c10-ls-target".to_string())
+}
+fn ls_seed() -> String {
+    std::env::var("C10_LS_SEED").unwrap_or_else(|_| "/var/tmp/verif-c10-ls-target-seed".to_string())
+}
+fn build_real_binary(rep: &mut Report) -> String {
+    let target = ls_target();
+    let bin = format!("{target}/debug/harper-ls");
     let t0 = Instant::now();
+    let mut cache = "warm";
+    if !Path::new(&bin).exists() {
+        let seed = ls_seed();
+        if Path::new(&format!("{seed}/debug/harper-ls")).exists() {
+            let _ = std::fs::remove_dir_all(&target);
+            if let Some(parent) = Path::new(&target).parent() {
+                let _ = std::fs::create_dir_all(parent);
+            }
+            let ok = Command::new("cp").args(["-a", "--reflink=auto", &seed, &target]).status().map(|s| s.success()).unwrap_or(false);
+            cache = if ok { "seeded" } else { "cold" };
+        } else {
+            cache = "cold";
+        }
+    }
+    rep.extra.insert("harper_ls_build_cache".into(), json!(cache));
     let b = Command::new("cargo")
-        // not from inside /repo: its rust-toolchain.toml would make rustup try to sync the `stable` channel over the network
+        // not from inside /repo: its rust-toolchain.toml (channel "stable" + wasm32 target) would make rustup try to
+        // sync the channel over the network; the toolchain is named explicitly instead
         .args(["build", "--offline", "--locked", "--manifest-path", "/repo/Cargo.toml", "-p", "harper-ls"])
         .current_dir(std::env::temp_dir())
         .env("CARGO_TARGET_DIR", &target)
         .env("CARGO_NET_OFFLINE", "true")
+        .env("RUSTUP_TOOLCHAIN", std::env::var("RUSTUP_TOOLCHAIN").unwrap_or_else(|_| "stable-x86_64-unknown-linux-gnu".to_string()))
         .output()
         .expect("cargo");
     rep.extra.insert("harper_ls_build_s".into(), json!(t0.elapsed().as_secs_f64()));
-    let bin = format!("{target}/debug/harper-ls");
     if !b.status.success() || !Path::new(&bin).exists() {
         let err = String::from_utf8_lossy(&b.stderr).to_string();
         panic!("cargo build -p harper-ls failed: {}", &err[err.len().saturating_sub(1500)..]);
     }
-    for mode in ["stdio", "tcp"] {
+    bin
+}
+
+/// the address of a traced `bind`: (family, "ip:port" / "[ip6]:port" as Rust would write the literal)
+fn bind_address(line: &str) -> (u32, Option<String>) {
+    let fam = sa_family(line);
+    let quoted = |key: &str| line.find(key).and_then(|i| line[i + key.len()..].split('"').next().map(|s| s.to_string()));
+    let port = |key: &str| line.find(key).and_then(|i| line[i + key.len()..].split(')').next().map(|s| s.to_string()));
+    match fam {
+        2 => (fam, quoted("inet_addr(\"").zip(port("sin_port=htons(")).map(|(a, p)| format!("{a}:{p}"))),
+        10 => (fam, quoted("inet_pton(AF_INET6, \"").zip(port("sin6_port=htons(")).map(|(a, p)| format!("[{a}]:{p}"))),
+        _ => (fam, None),
+    }
+}
+
+/// seeds c10-1 / c10-3: 127.0.0.1:4000 is BUSY when the server starts. Whatever it does then (the code as it is:
+/// panics on the failed bind), every address it tries to bind must be a loopback address. The addresses seen are also
+/// handed to the extracted `Effects.loopback_bytes` (correspondence cases `L`).
+fn real_tcp_busy(rep: &mut Report, bin: &str) {
+    let mode = "tcp-busy";
+    let scratch = format!("/tmp/w-c10-{}-{mode}", std::process::id());
+    let log = format!("{scratch}.strace");
+    let _ = std::fs::remove_dir_all(&scratch);
+    let home = format!("{scratch}/home");
+    std::fs::create_dir_all(&home).unwrap();
+    std::fs::create_dir_all(format!("{scratch}/cwd")).unwrap();
+    let lock = std::fs::OpenOptions::new().create(true).write(true).open("/tmp/c10-port4000.lock").expect("port lock");
+    lock.lock().expect("flock");
+    // occupy the port; when somebody outside the lock discipline owns it, it is busy all the same
+    let holder = std::net::TcpListener::bind("127.0.0.1:4000");
+    rep.monitor("real_tcp_busy_port_held_by_harness", holder.is_ok() as u64);
+    let mut cmd = strace_cmd(&log);
+    cmd.arg(bin);
+    cmd.env_clear().env("PATH", std::env::var("PATH").unwrap_or_default()).env("HOME", &home).current_dir(format!("{scratch}/cwd"));
+    cmd.stdin(Stdio::piped()).stdout(Stdio::piped()).stderr(Stdio::null());
+    let mut child = cmd.spawn().expect("strace harper-ls");
+    let stdin = child.stdin.take().unwrap();
+    let stdout = child.stdout.take().unwrap();
+    let (tx, rx) = std::sync::mpsc::channel();
+    std::thread::spawn(move || {
+        let mut line = String::new();
+        let _ = BufReader::new(stdout).read_line(&mut line);
+        let _ = tx.send(line);
+    });
+    // the code as it is exits at once (unwrap on EADDRINUSE); a server that found another address prints a banner and waits
+    let t0 = Instant::now();
+    let mut banner = String::new();
+    let mut exited = false;
+    while t0.elapsed() < Duration::from_secs(20) {
+        if let Ok(Some(_)) = child.try_wait() {
+            exited = true;
+            break;
+        }
+        if let Ok(l) = rx.try_recv() {
+            banner = l.trim().to_string();
+            if !banner.is_empty() {
+                std::thread::sleep(Duration::from_millis(300));
+                break;
+            }
+        }
+        std::thread::sleep(Duration::from_millis(20));
+    }
+    drop(stdin);
+    if !exited {
+        let _ = Command::new("pkill").args(["-f", bin]).status();
+        std::thread::sleep(Duration::from_millis(200));
+        let _ = child.kill();
+        let _ = child.wait();
+    }
+    drop(holder);
+    drop(lock);
+    rep.extra.insert("tcp_busy_banner".into(), json!(banner));
+    rep.monitor("real_tcp_busy_server_exited_by_itself", exited as u64);
+    let logtext = String::from_utf8_lossy(&std::fs::read(&log).unwrap_or_default()).to_string();
+    let input = |what: &str| json!({"kind": "real", "mode": mode, "precondition": "127.0.0.1:4000 is in use when harper-ls starts in TCP mode", "syscall": what});
+    let (mut binds, mut busy, mut listens) = (0u64, 0u64, 0u64);
+    for r in records(&logtext) {
+        match r.name.as_str() {
+            "bind" => {
+                binds += 1;
+                let (fam, addr) = bind_address(&r.line);
+                if r.line.contains("EADDRINUSE") && r.line.contains("htons(4000)") {
+                    busy += 1;
+                }
+                let ok = match (&fam, &addr) {
+                    (1, _) => true,
+                    (_, Some(a)) => {
+                        rep.eval();
+                        let ok = a.parse::<std::net::SocketAddr>().map(|x| x.ip().is_loopback()).unwrap_or(false);
+                        rep.case(&format!("L {}", hex(a.as_bytes())), if ok { "1" } else { "0" });
+                        rep.count(&format!("real-tcp-busy:bind {a}"));
+                        ok
+                    }
+                    _ => false,
+                };
+                if !ok {
+                    rep.fail(
+                        "listener-not-loopback-only",
+                        format!("real harper-ls (tcp, 127.0.0.1:4000 busy at start-up) binds {}: {}", addr.unwrap_or_else(|| format!("family {fam}")), r.line.chars().take(300).collect::<String>()),
+                        input(&r.line),
+                    );
+                }
+            }
+            "listen" if r.ret_ok => listens += 1,
+            "connect" | "sendto" | "sendmsg" | "sendmmsg" => {
+                if let Parsed::Event(e) = interpret(format!("{scratch}/cwd").as_bytes(), &r.name, &r.args, r.ret_ok) {
+                    if judge(&MCfg::none(), &e) != 0 && !matches!(e, Ev::Send(0)) {
+                        rep.fail(verdict_class(judge(&MCfg::none(), &e)), format!("real harper-ls ({mode}): {}", r.line.chars().take(300).collect::<String>()), input(&r.line));
+                    }
+                }
+            }
+            _ => {}
+        }
+    }
+    rep.monitor("real_tcp_busy_binds_seen", binds);
+    rep.monitor("real_tcp_busy_listens_seen", listens);
+    if busy == 0 {
+        panic!("real harper-ls ({mode}): vacuous — no bind of port 4000 failed with EADDRINUSE ({binds} binds traced)");
+    }
+    let mut files = vec![];
+    walk(Path::new(&scratch), &mut files);
+    for f in files {
+        rep.fail("stray-file", format!("real harper-ls ({mode}) left {f}"), input(&f));
+    }
+    if std::env::var("C10_KEEP").is_err() {
+        let _ = std::fs::remove_dir_all(&scratch);
+        let _ = std::fs::remove_file(&log);
+    }
+}
+
+fn real_binary(rep: &mut Report, _args: &Args) {
+    let bin = build_real_binary(rep);
+    real_tcp_busy(rep, &bin);
+    // "stdio-empty": an editor that sends the string-typed path settings present but EMPTY (seed c10-4) and a relative
+    // statsPath: the dictionaries must land in the default locations under $HOME, the statistics under the cwd
+    for mode in ["stdio", "stdio-empty", "tcp"] {
         let scratch = format!("/tmp/w-c10-{}-{mode}", std::process::id());
         let log = format!("{scratch}.strace");
         let _ = std::fs::remove_dir_all(&scratch);
@@ -1437,22 +1747,29 @@ fn real_binary(rep: &mut Report, _args: &Args) {
         // stdio: explicit paths; tcp: nothing configured (Config::default under $HOME), the editor answers `{}`-like settings
         let settings = if mode == "stdio" {
             json!({"harper-ls": {"userDictPath": format!("{scratch}/u/dict.txt"), "fileDictPath": format!("{scratch}/fd"), "statsPath": format!("{scratch}/st/stats.txt")}})
+        } else if mode == "stdio-empty" {
+            json!({"harper-ls": {"userDictPath": "", "fileDictPath": "", "statsPath": "rel-stats/../rel-stats/s.txt"}})
         } else {
             json!({"harper-ls": {}})
         };
         let mut cfgs = BTreeMap::new();
-        cfgs.insert("real".to_string(), cfg_of(&settings, &home));
+        let mut mc = cfg_of(&settings, &home);
+        if mode == "stdio-empty" {
+            mc.stats = format!("{scratch}/cwd/rel-stats/s.txt").into_bytes();
+        }
+        cfgs.insert("real".to_string(), mc);
         // TCP mode uses the fixed port 4000: serialise with other C10 runs on this machine (flock holds the lock
         // for as long as the traced server lives)
-        let mut cmd = if mode == "tcp" {
-            let mut c = Command::new("flock");
-            c.args(["-x", "/tmp/c10-port4000.lock", "strace", "-f", "-qq", "-s", "4096", "-e", TRACE, "-o", &log]);
-            c
+        let port_lock = if mode == "tcp" {
+            let l = std::fs::OpenOptions::new().create(true).write(true).open("/tmp/c10-port4000.lock").expect("port lock");
+            l.lock().expect("flock");
+            Some(l)
         } else {
-            strace_cmd(&log)
+            None
         };
+        let mut cmd = strace_cmd(&log);
         cmd.arg(&bin);
-        if mode == "stdio" {
+        if mode != "tcp" {
             cmd.arg("--stdio");
         }
         cmd.env_clear().env("PATH", std::env::var("PATH").unwrap_or_default()).env("HOME", &home).current_dir(format!("{scratch}/cwd"));
@@ -1460,7 +1777,7 @@ fn real_binary(rep: &mut Report, _args: &Args) {
         let mut child = cmd.spawn().expect("strace harper-ls");
         let mut stdin = child.stdin.take().unwrap();
         let mut stdout = child.stdout.take().unwrap();
-        let ok = if mode == "stdio" {
+        let ok = if mode != "tcp" {
             let rx = spawn_reader(stdout);
             editor_session(&mut stdin, &rx, &settings, &doc)
         } else {
@@ -1495,6 +1812,7 @@ fn real_binary(rep: &mut Report, _args: &Args) {
                 _ => std::thread::sleep(Duration::from_millis(50)),
             }
         }
+        drop(port_lock);
         rep.monitor(&format!("real_{mode}_exchanges_completed"), ok);
         if mode == "tcp" && ok < EDITOR_EXCHANGES && String::from_utf8_lossy(&std::fs::read(&log).unwrap_or_default()).contains("EADDRINUSE") {
             // somebody else on this machine owns port 4000 right now: nothing can be observed, nothing is claimed
@@ -1515,7 +1833,7 @@ fn real_binary(rep: &mut Report, _args: &Args) {
         if writes < 3 {
             panic!("real harper-ls ({mode}): vacuous trace ({} records, {writes} write-opens)", judged.len());
         }
-        let input = |what: &str| json!({"kind": "real", "mode": mode, "syscall": what});
+        let input = |what: &str| json!({"kind": "real", "mode": mode, "settings": settings, "syscall": what});
         let mut inet_sockets = 0;
         for j in &judged {
             let net = matches!(j.ev, Ev::Socket(_) | Ev::Connect(..) | Ev::Send(_) | Ev::Bind(_));
@@ -1605,6 +1923,11 @@ fn main() {
                 real_binary(&mut rep, &args);
                 ran_replay = true;
             }
+            "config" => {
+                let mut r = Rng::new(args.seed);
+                config_cases(&mut rep, &mut r, 0, Some(inp));
+                ran_replay = true;
+            }
             _ => rep.count("corpus:ignored"),
         }
     }
@@ -1612,14 +1935,10 @@ fn main() {
         monitored_run(&mut rep, &args, args.seed, false, None);
         let mut r = Rng::new(args.seed);
         loopback_cases(&mut rep, &mut r, args.scale(300, 5000));
-        // the real harper-ls binary (stdio + TCP listener): always in the thorough tier; in the quick tier only when a
-        // previous build left a warm cargo cache (an incremental rebuild takes seconds, a cold one ~2.5 min)
-        let target = std::env::var("C10_LS_TARGET").unwrap_or_else(|_| "/verif/.work/c10-ls-target".to_string());
-        if args.thorough() || Path::new(&format!("{target}/debug/harper-ls")).exists() {
-            real_binary(&mut rep, &args);
-        } else {
-            rep.monitor("real_binary_skipped_no_warm_build_cache", 1);
-        }
+        config_cases(&mut rep, &mut r, args.scale(600, 20000), None);
+        // the real harper-ls binary (TCP with port 4000 busy, stdio, TCP listener): in BOTH tiers. setup.sh pre-builds it
+        // (warm: the rebuild takes < 1 s; seeded copy inside mutcheck: ~10 s + the crates that changed; cold: ~2.5 min)
+        real_binary(&mut rep, &args);
     } else if !ran_replay {
         eprintln!("replay file holds no input I know how to run");
     }
